@@ -89,11 +89,51 @@ def c19(ctx, spec):
     for d in (1, 2, 3, 4):
         ctx.run_sharded('c19_d%d' % d, n, args=['--maxext', 4, '--maxops', 4], shards=4)
 
+# ---------------------------------------------------------------------------------------------- C20
+def c20(ctx, spec):
+    builds = [dict(name='c20_death', src='harness/c20_death.cpp', cfg='asan_noleak'),
+              dict(name='dig_dbg', src='harness/c20_digest.cpp', cfg='dbg'), dict(name='dig_ndbg', src='harness/c20_digest.cpp', cfg='ndbg'), dict(name='dig_adis', src='harness/c20_digest.cpp', cfg='adis'),
+              dict(name='sil_c01', src='harness/c01_view.cpp', cfg='asan'), dict(name='sil_c03', src='harness/c03_alg.cpp', cfg='asan'), dict(name='sil_c07', src='harness/c07_cmp.cpp', cfg='asan', defs=['C07_D=2']),
+              dict(name='sil_c05', src='harness/c05_assign.cpp', cfg='asan', defs=['C05_D=2'])]
+    builds += [dict(name='hist_t1_d2_tr0', src='harness/hist.cpp', cfg='asan', defs=['H_T=1', 'H_D=2', 'H_TR=0'])]
+    ctx.build(builds)
+    # (3) death tests
+    ctx.run_sharded('c20_death', T(ctx, 3000, 120000), args=['--maxext', 4, '--maxops', 4], shards=8)
+    # (1) silence on valid use: the workloads of C01/C03/C05/C07/E-HIST with assertions on; only assertion failures concern C20
+    is_assert = lambda v: 'assert(' in v['key'] or v['key'].split(':')[1:2] == ['assert']
+    n = T(ctx, 6000, 200000)
+    ctx.run_sharded('sil_c01', n, args=['--maxext', 5, '--maxops', 6, '--zero', 5], shards=6, keep=is_assert)
+    ctx.run_sharded('sil_c03', n * 3, args=['--maxext', 6], shards=4, keep=is_assert)
+    ctx.run_sharded('sil_c07', n, args=['--maxext', 3], shards=2, keep=is_assert)
+    ctx.run_sharded('sil_c05', n, args=['--maxext', 4, '--maxops', 4], shards=4, keep=is_assert)
+    ctx.run_sharded('hist_t1_d2_tr0', n, args=['--prop', 'C20', '--steps', 12], shards=2, keep=is_assert)
+    # (2) configuration independence: identical digests under assert-on / NDEBUG / BOOST_MULTI_ASSERT_DISABLE
+    nd = T(ctx, 20000, 600000)
+    for b in ('dig_dbg', 'dig_ndbg', 'dig_adis'): ctx.run_sharded(b, nd, args=['--maxext', 5, '--maxops', 6], shards=5)
+    ref = ctx.digests.get('dig_dbg', {}); compared = 0
+    for other in ('dig_ndbg', 'dig_adis'):
+        dd = ctx.digests.get(other, {})
+        for k, h in ref.items():
+            if k in dd:
+                compared += 1
+                if dd[k] != h:
+                    ctx.add_violation('C20:config-diff:%s' % other[4:], 'case %d: digest %s with assertions on, %s with %s' % (k, h, dd[k], other[4:]), run=dict(build=ctx.replay_build(ctx.built[other]), args=['--maxext', 5, '--maxops', 6], seed=ctx.seed, case=k))
+                    break
+    ctx.extra['digests_compared_across_configurations'] = compared
+    if compared < nd: ctx.inconclusive.append('only %d of %d digests could be compared across build configurations' % (compared, 2 * nd)) if compared < nd // 2 else None
+
 HIST_RULE = ('histories (3..12 steps quick, ..40 thorough) over a pool of 4 owning arrays of one (element type, rank, allocator traits): 26 operation kinds (sizing/fill/allocator-extended/copy/move/view/init-list/iterator constructors, copy/move/self assignment over '
              'every prior state, assignment from views/other element type/init lists/ranges, swap, decay, 3 reextent overloads, clear, ={}, reshape, assign(first,last), element writes, destroy); unique ids as values; extents 0..3. '
              'After EVERY step: each live array vs. its model value, storage ranges pairwise disjoint, live-object registry == sum of num_elements, outstanding blocks == non-empty arrays with matching sizes, block owner == get_allocator(), get_allocator() == what the traits prescribe. ')
 
 REGISTRY = {
+    'C20': dict(fn=c20, level='exploration',
+                rule='three monitors. (1) silence: the valid workloads of C01, C03, C05, C07 and E-HIST run with assertions on; any library assertion is a violation; evidence lists the assertion sites evaluated (count per file:line) so that silence is not vacuous. '
+                     '(2) configuration independence: a digest of every observable result (sizes, strides, element offsets through brackets and elements(), iterator differences, ==/!=/<, copies, sort, reverse, reextent, view assignment, swap) of random view programs is computed in three builds '
+                     '(assertions on; -DNDEBUG; -DBOOST_MULTI_ASSERT_DISABLE) and must be identical case by case. (3) death tests, one forked child each: views from random programs x an index just outside (or far outside) the extension in one chain position x {brackets, call, apply}; '
+                     'and 12 overload kinds of assignment/swap between views/arrays whose extents differ in the leading extent, an inner extent, or by permutation: the child must exit through a library assertion before any sanitizer report; survivors are violations. '
+                     'distinct = hash of program / probe kind; non-trivial = >= 1 probe or >= 1 element observed',
+                assumptions=['broadcast (stride 0) views are exempt from the bounds assertion by the library and are not probed', 'death-test buffers are padded so that the verdict does not depend on ASan red zones']),
     'C19': dict(fn=c19, level='exploration',
                 rule='the view programs of C01 (plus reindexed / blocked / stenciled) run on arrays constructed from explicit index extensions with bases -3..3 per dimension (root D 1..4); index-taking operations receive reported_first + relative index; '
                      'after EVERY operation the zero-based table model (the twin) is compared: sizes, extension sizes, and for the k-th valid index tuple of the extension the view itself reports: brackets, call, apply, k-th elements() position, elements()[k], begin()+n; '
